@@ -289,6 +289,7 @@ def _run_ops(spec, db, mgr):
         return None
     for n, op in enumerate(spec["ops"], int(spec.get("first_op") or 0)):
         k = op["op"]
+        _emit("N %d" % n)
         try:
             if k in ("enter", "exit", "exitexc", "commit", "close"):
                 _emit("G " + k)
@@ -583,6 +584,31 @@ class Trace:
         self.open_points = []
         self.current = None
         self.last_point = None
+        self.pending_blk = None
+
+    def end_phase(self):
+        """the process is gone (killed, or ended without close): whatever was in flight is cut short, an open
+        `with db:` block and every uncommitted row are lost"""
+        if self.current is not None:
+            self.calls[self.current]["cut"] = self.calls[self.current].get("nlab", 0)
+        if getattr(self, "pending_blk", None) is not None:
+            idx, seen_commit = self.pending_blk
+            if not seen_commit:
+                self.items[idx] = ("dropped", self.items[idx][1])
+            elif self.items[idx][1] == "exit":
+                self.labels.append("ex")      # its commit happened; what remained of __exit__ was in-memory only
+        self.items.append(("kill", None))
+        self.block_open = False
+        self.block_calls = []
+        self.current = None
+        self.pending_blk = None
+
+    def _lab(self, lab):
+        self.labels.append(lab)
+        if self.current is not None:
+            self.calls[self.current]["nlab"] = self.calls[self.current].get("nlab", 0) + 1
+        elif getattr(self, "pending_blk", None) is not None and lab == "C":
+            self.pending_blk = (self.pending_blk[0], True)
 
     def feed(self, lines):
         for ln in lines:
@@ -599,17 +625,17 @@ class Trace:
                     self.inflight = "exec"
                 elif kind.startswith("X:"):
                     self.inflight = None
-                    self.labels.append("X" if kind != "X:0" else "Xi")
+                    self._lab("X" if kind != "X:0" else "Xi")
                     if self.current is not None:
                         self.calls[self.current]["executed"] = True
                 elif kind.startswith("X!"):
                     self.inflight = None
-                    self.labels.append("X!")
+                    self._lab("X!")
                 elif kind == "c":
                     self.inflight = "commit"
                 elif kind == "C":
                     self.inflight = None
-                    self.labels.append("C")
+                    self._lab("C")
             elif t == "Q":
                 try:
                     sql = bytes.fromhex(w[1]).decode()
@@ -624,7 +650,7 @@ class Trace:
             elif t == "B":
                 cid = int(w[1])
                 self.calls[cid] = {"name": w[2], "row": None, "status": "started", "executed": False,
-                                   "in_block": self.block_open}
+                                   "in_block": self.block_open, "op": getattr(self, "cur_op", None)}
                 self.order.append(cid)
                 self.items.append(("call", cid))
                 self.current = cid
@@ -644,8 +670,10 @@ class Trace:
                 self.current = None
             elif t == "G":                            # a block op / commit / close is about to start
                 self.items.append(("blk", w[1]))
+                self.pending_blk = (len(self.items) - 1, False)
             elif t == "E":
                 what = w[1]
+                self.pending_blk = None
                 if what == "en":
                     self.block_open = True
                     self.block_calls = []
@@ -659,6 +687,8 @@ class Trace:
                     self.block_open = False
                     self.block_calls = []
                     self.labels.append("xx")
+            elif t == "N":
+                self.cur_op = int(w[1])
             elif t == "O":
                 self.opened = True
             elif t == "D":
@@ -730,21 +760,22 @@ def parse_timeline(reply):
 class Experiment:
     """phases: op lists run by successive processes on the same file; the last process carries the kill"""
 
-    def __init__(self, kind, ops_phases, kill, label, pks=(), sks=(), hashes=()):
+    def __init__(self, kind, ops_phases, kill, label, pks=(), sks=(), hashes=(), kills=None):
         self.kind = kind
         self.ops_phases = ops_phases
-        self.kill = kill                  # {"mode": "none"|"point"|"fsize"|"timed", ...}
+        self.kill = kill                  # kill of the last process: {"mode": "none"|"point"|"fsize"|"timed", ...}
+        self.kills = list(kills) if kills else [None] * (len(ops_phases) - 1)   # earlier processes: None | event index
         self.label = label
         self.pks, self.sks, self.hashes = list(pks), list(sks), list(hashes)
 
     def to_replay(self):
-        return {"kind": self.kind, "ops_phases": self.ops_phases, "kill": self.kill, "label": self.label,
-                "pks": self.pks, "sks": self.sks, "hashes": self.hashes}
+        return {"kind": self.kind, "ops_phases": self.ops_phases, "kill": self.kill, "kills": self.kills,
+                "label": self.label, "pks": self.pks, "sks": self.sks, "hashes": self.hashes}
 
     @staticmethod
     def from_replay(r):
         return Experiment(r["kind"], r["ops_phases"], r["kill"], r.get("label", "replay"),
-                          r.get("pks", ()), r.get("sks", ()), r.get("hashes", ()))
+                          r.get("pks", ()), r.get("sks", ()), r.get("hashes", ()), r.get("kills"))
 
 
 def execute(zy: Zygote, exp: Experiment, root: str, n: int):
@@ -757,6 +788,7 @@ def execute(zy: Zygote, exp: Experiment, root: str, n: int):
         first_call = first_op = 0
         res = None
         pi = 0
+        phase_points = []
         for pi, ops in enumerate(exp.ops_phases):
             last = pi == len(exp.ops_phases) - 1
             spec = dict(base, ops=ops, first_call=first_call, first_op=first_op, end="exit")
@@ -771,16 +803,20 @@ def execute(zy: Zygote, exp: Experiment, root: str, n: int):
                 elif k["mode"] == "timed":
                     spec["end"] = "hang"
                     delay = k["delay"]
+            elif exp.kills[pi]:
+                spec["crash_at"] = exp.kills[pi]
             res = run_child(zy, spec, delay)
             tr.new_phase()
             tr.feed(res["lines"])
+            phase_points.append(tr.points)
             first_call = (max(tr.order) + 1) if tr.order else 0
             first_op += len(ops)
-            if not last and (not tr.done or res["rc"] != 0):
-                break
+            if not last:
+                tr.end_phase()
         vspec = dict(base, pks=exp.pks, sks=exp.sks, hashes=exp.hashes)
         dump = run_verify(zy, vspec)
-        return {"trace": tr, "rc": res["rc"], "stderr": res["stderr"], "dump": dump, "phases_run": pi + 1}
+        return {"trace": tr, "rc": res["rc"], "stderr": res["stderr"], "dump": dump, "phases_run": pi + 1,
+                "phase_points": phase_points}
     finally:
         shutil.rmtree(d, ignore_errors=True)
 
@@ -895,9 +931,14 @@ def oracle(ctx, exp: Experiment, r) -> bool:
                          f"get_{aname}_for returns {len(got)} objects that differ from the {len(want)} stored rows")
     # (3b) the objects handed to the insert calls read back as the same objects (not only the same bound values)
     if exp.kind in ("identity", "wallet"):
-        flat = [op for ops in exp.ops_phases for op in ops if op["op"] in ("tok", "md", "att", "watt")]
+        flat = [op for ops in exp.ops_phases for op in ops]
         objs = {}          # (api name, owner, model key) -> list of (call id, expected API tuple) in call order
-        for op, cid in zip(flat, tr.order):
+        for cid in tr.order:
+            opi = tr.calls[cid].get("op")
+            if opi is None or opi >= len(flat) or flat[opi]["op"] not in ("tok", "md", "att", "watt"):
+                continue
+            op = flat[opi]
+            ctx.count("object_readback:" + op["op"])
             if op["op"] == "tok":
                 content = _cx(_unhx(op["content"])) if op.get("content") is not None else None
                 objs.setdefault(("tokens", op["pk"], (op["prev"], op["ch"])), []).append(
@@ -963,9 +1004,13 @@ def model_compare(ctx, exp: Experiment, r, drv) -> None:
     toks = []
     pos_of = {}
     val_of = {}                       # (table, full row in schema column order) -> model value id
-    for pos, (kind, x) in enumerate(tr.items):
+    items = [it_ for it_ in tr.items if it_[0] != "dropped"]
+    for pos, (kind, x) in enumerate(items):
         if kind == "blk":
             toks.append(BLK_TOKEN[x])
+            continue
+        if kind == "kill":
+            toks.append("kk")
             continue
         c = tr.calls[x]
         pos_of[x] = pos
@@ -976,19 +1021,20 @@ def model_compare(ctx, exp: Experiment, r, drv) -> None:
             return
         row = c["row"]
         t = tables.get(row["table"]) if row else None
+        cut = "" if c.get("cut") is None else "/%d" % c["cut"]
         if row is None or t is None:
-            toks.append(f"m{mi}.0:0:0")
+            toks.append(f"m{mi}.0{cut}:0:0")
             continue
         k = it.key(row_key(row, t["pk"]))
         v = it.val((row["table"], tuple(row["vals"])))
         d = dict(zip(row["cols"], row["vals"]))
         val_of[(row["table"], tuple(d.get(c) for c in t["cols"]))] = v
-        toks.append(f"m{mi}.0:{k}:{v}")
+        toks.append(f"m{mi}.0{cut}:{k}:{v}")
     reply = drv.ask("tl " + " ".join(toks)) if toks else "init||"
     if reply == "bad-op":
         ctx.disagree("model driver rejected the workload line", {"line": " ".join(toks)[:400]})
         return
-    tl = parse_timeline(reply)
+    tl = [e for e in parse_timeline(reply) if e[0] != "kk"]
     model_labels = [e[0] for e in tl[1:]]
     obs = list(tr.labels)
     n = len(obs)
@@ -1160,9 +1206,9 @@ def scripted(rng):
     ]
 
 
-def split_phases(rng, ops):
-    """cut the workload into two process lifetimes at a point outside any `with db:` block; the first process ends
-    by plain exit or by Database.close()"""
+def split_phases(rng, ops, max_parts=2):
+    """cut the workload into 2..max_parts process lifetimes at points outside any `with db:` block; a process ends by
+    plain exit or by Database.close() (or is killed, see Experiment.kills)"""
     cuts, depth = [], 0
     for i, o in enumerate(ops):
         if i > 0 and depth == 0:
@@ -1173,18 +1219,23 @@ def split_phases(rng, ops):
             depth = 0
     if not cuts:
         return [ops]
-    cut = rng.choice(cuts)
-    first = ops[:cut] + ([{"op": "close"}] if rng.random() < 0.5 else [])
-    return [first, ops[cut:]]
+    n = min(len(cuts), rng.randrange(1, max_parts))
+    chosen = sorted(rng.sample(cuts, n))
+    parts, prev = [], 0
+    for c in chosen:
+        parts.append(ops[prev:c] + ([{"op": "close"}] if rng.random() < 0.4 else []))
+        prev = c
+    parts.append(ops[prev:])
+    return parts
 
 
 def with_kill(exp: Experiment, kill) -> Experiment:
-    return Experiment(exp.kind, exp.ops_phases, kill, exp.label, exp.pks, exp.sks, exp.hashes)
+    return Experiment(exp.kind, exp.ops_phases, kill, exp.label, exp.pks, exp.sks, exp.hashes, exp.kills)
 
 
 def digest(exp: Experiment) -> str:
     import hashlib
-    return hashlib.sha1(json.dumps([exp.kind, exp.ops_phases], sort_keys=True).encode()).hexdigest()[:10]
+    return hashlib.sha1(json.dumps([exp.kind, exp.ops_phases, exp.kills], sort_keys=True).encode()).hexdigest()[:10]
 
 
 # =====================================================================================================
@@ -1253,6 +1304,10 @@ class Runner:
         for lab in tr.labels:
             ctx.count("label:" + lab)
         created = bool(r["dump"].get("tables"))
+        if mode != "none" and tr.opened and len(tr.order) >= 3:
+            ctx.sample({"workload": exp.label, "kill": exp.kill, "earlier_kills": exp.kills, "last_event": tr.last_point,
+                        "labels": " ".join(tr.labels[-15:]), "calls_started": len(tr.order), "acked": nacked,
+                        "reopened_rows": {k: len(v["rows"]) for k, v in (r["dump"].get("tables") or {}).items()}})
         ok = oracle(ctx, exp, r)
         hypothesis_check(ctx, exp, r)
         if self.drv is not None and ok:
@@ -1303,9 +1358,9 @@ def run(ctx):
         for exp in scr:
             probe = exhaustive(runner, exp)
             if exp.label in ("scripted-identity", "scripted-wallet", "scripted-blocks"):
-                fsize_runs(runner, exp, probe, rng, ctx.scale(12, 80))
+                fsize_runs(runner, exp, probe, rng, ctx.scale(12, 150))
         # generated workloads
-        n_gen = ctx.scale(36, 260)
+        n_gen = ctx.scale(70, 520)
         for i in range(n_gen):
             kind = rng.choice(["identity", "identity", "wallet", "manager"])
             n_ops = rng.choice([3, 6, 10, 16, 24])
@@ -1319,13 +1374,22 @@ def run(ctx):
                 ops, sks = gen_manager_ops(rng, min(n_ops, 12))
                 kw = {"sks": sks}
             ctx.count("workload_ops:%d" % n_ops)
-            phases = split_phases(rng, ops) if rng.random() < 0.4 else [ops]
+            phases = split_phases(rng, ops, ctx.scale(3, 4)) if rng.random() < 0.5 else [ops]
             ctx.count("processes:%d" % len(phases))
             exp = Experiment(kind, phases, None, f"generated-{kind}-{i}", **kw)
+            if len(phases) > 1 and rng.random() < 0.7:
+                # the earlier processes are killed too (kill / restart cycles); a process whose ops end with close()
+                # is left alone half of the time
+                probe0 = runner.run_all([with_kill(exp, {"mode": "none"})])[0]
+                kills = [rng.randrange(1, max(2, n + 1)) if rng.random() < 0.8 else None
+                         for n in probe0["phase_points"][:-1]]
+                kills += [None] * (len(phases) - 1 - len(kills))
+                exp = Experiment(kind, phases, None, f"generated-{kind}-{i}", kills=kills, **kw)
+                ctx.count("earlier_processes_killed:%d" % sum(1 for k in kills if k))
             if thorough and i % 4 == 0:
                 probe = exhaustive(runner, exp)
             else:
-                probe = exhaustive(runner, exp, stride=ctx.scale(9, 4), rng=rng)
+                probe = exhaustive(runner, exp, stride=ctx.scale(7, 4), rng=rng)
             if i % 3 == 0:
                 fsize_runs(runner, exp, probe, rng, ctx.scale(4, 12))
             if i % 4 == 1:
